@@ -100,6 +100,10 @@ pub enum G {
     /// group((a, b, c)) and choice((a, b, c)): the tuple implementations
     Group3(Box<G>, Box<G>, Box<G>),
     Choice3(Box<G>, Box<G>, Box<G>),
+    /// inner.nested_in(region): the next n tokens of the outer input are collected and become a NEW
+    /// input (a slice of tokens, wrapped the way the outer input is wrapped so that span types agree),
+    /// on which `inner` must match completely. Kinds with the `nest` capability only (srcsim).
+    Nested(Box<G>, u8),
 }
 
 pub const N_UN: u8 = 7;
@@ -129,6 +133,8 @@ pub struct GenCfg {
     pub allow_text: bool,
     pub allow_regex: bool,
     pub allow_pad: bool,
+    /// nested_in over a collected region (srcsim, byte kinds with the `nest` capability)
+    pub allow_nest: bool,
     /// Swarm mask over combinator families (bit i set = family i enabled in this case).
     pub mask: u64,
 }
@@ -153,6 +159,7 @@ impl GenCfg {
             allow_text: false,
             allow_regex: false,
             allow_pad: false,
+            allow_nest: false,
             // each family is on with probability ~3/4
             mask: rng.next_u64() | rng.next_u64(),
         }
@@ -278,6 +285,22 @@ impl<'r> Gen<'r> {
                         c[pick as usize] = true;
                     }
                     G::Group3(self.bx(d + 1, c[0]), self.bx(d + 1, c[1]), self.bx(d + 1, c[2]))
+                }
+                42..=43 if self.cfg.allow_nest && self.cfg.value_prims && self.rng.chance(1, 2) => {
+                    // the inner grammar lives on another input: no reference to an enclosing recursion
+                    let saved = std::mem::replace(&mut self.rec_depth, 0);
+                    let inner = self.gen(d + 1, false);
+                    self.rec_depth = saved;
+                    // region length: what one derivation of the inner grammar needs (deterministic in the shape)
+                    let mut v = Vec::new();
+                    let mut fuel = 60;
+                    let mut r2 = Rng::new(digest(&inner));
+                    sample(&inner, &mut r2, self.cfg.nsym, &mut v, &mut fuel, None);
+                    let n = v.len().min(6) as u8;
+                    if consuming && n == 0 {
+                        continue;
+                    }
+                    G::Nested(Box::new(inner), n)
                 }
                 48..=49 if self.fam(2) => G::Choice3(self.bx(d + 1, consuming), self.bx(d + 1, consuming), self.bx(d + 1, consuming)),
                 40..=41 if self.cfg.allow_pad && self.cfg.value_prims => G::Padded(self.bx(d + 1, consuming)),
@@ -440,6 +463,7 @@ pub fn nullable(g: &G) -> bool {
     match g {
         Just(_) | Any | OneOf(_) | NoneOf(_) | Select(_) | Custom(..) | AnyRef | SelectRef(_) | CustomApi(..) | CtxPair(_) => false,
         Text(k) => *k == 8,
+        Nested(_, n) => *n == 0,
         JustSeq(v) => v.is_empty(),
         End | Empty | SpanFrom | SliceFrom => true,
         Then(a, b) | IgnoreThen(a, b) | ThenIgnore(a, b) => nullable(a) && nullable(b),
@@ -525,7 +549,7 @@ pub fn fixup(g: &mut G, nsym: u8) {
             fixup(item, nsym);
             guard(item, nsym);
         }
-        Un(_, _, a) => fixup(a, nsym),
+        Un(_, _, a) | Nested(a, _) => fixup(a, nsym),
         Group3(a, b, c) | Choice3(a, b, c) => {
             fixup(a, nsym);
             fixup(b, nsym);
@@ -566,7 +590,7 @@ fn leftmost_recref(g: &G) -> bool {
     use G::*;
     match g {
         RecRef => true,
-        Just(_) | JustSeq(_) | Any | OneOf(_) | NoneOf(_) | Select(_) | Custom(..) | End | Empty | AnyRef | SelectRef(_) | SpanFrom | SliceFrom | CustomApi(..) | CtxPair(_) | Text(_) => false,
+        Just(_) | JustSeq(_) | Any | OneOf(_) | NoneOf(_) | Select(_) | Custom(..) | End | Empty | AnyRef | SelectRef(_) | SpanFrom | SliceFrom | CustomApi(..) | CtxPair(_) | Text(_) | Nested(..) => false,
         Then(a, b) | IgnoreThen(a, b) | ThenIgnore(a, b) => leftmost_recref(a) || (nullable(a) && leftmost_recref(b)),
         Delim(i, o, c) => leftmost_recref(o) || (nullable(o) && (leftmost_recref(i) || (nullable(i) && leftmost_recref(c)))),
         PaddedBy(a, p) => leftmost_recref(p) || (nullable(p) && leftmost_recref(a)) || (nullable(p) && nullable(a) && leftmost_recref(p)),
@@ -598,7 +622,7 @@ pub fn children(g: &G) -> Vec<&G> {
         Then(a, b) | IgnoreThen(a, b) | ThenIgnore(a, b) | PaddedBy(a, b) | Or(a, b) | AndIs(a, b) | Foldl(a, b) | Foldr(a, b) => vec![a, b],
         Delim(a, b, c) | Group3(a, b, c) | Choice3(a, b, c) => vec![a, b, c],
         FoldWith(_, a, b) => vec![a, b],
-        Un(_, _, a) => vec![a],
+        Un(_, _, a) | Nested(a, _) => vec![a],
         Choice(v) => v.iter().collect(),
         OrNot(a) | Not(a) | Rewind(a) | MapSpan(a) | ToSpan(a) | StateProbe(a) | Filter(a, _) | TryMap(a, _) | Validate(a, _)
         | Labelled(a, ..) | Memo(a) | Ignored(a) | To(a, _) | Lazy(a) | Rec(a) | Slice(a) | Padded(a) => vec![a],
@@ -619,7 +643,7 @@ pub fn children_mut(g: &mut G) -> Vec<&mut G> {
         Then(a, b) | IgnoreThen(a, b) | ThenIgnore(a, b) | PaddedBy(a, b) | Or(a, b) | AndIs(a, b) | Foldl(a, b) | Foldr(a, b) => vec![a, b],
         Delim(a, b, c) | Group3(a, b, c) | Choice3(a, b, c) => vec![a, b, c],
         FoldWith(_, a, b) => vec![a, b],
-        Un(_, _, a) => vec![a],
+        Un(_, _, a) | Nested(a, _) => vec![a],
         Choice(v) => v.iter_mut().collect(),
         OrNot(a) | Not(a) | Rewind(a) | MapSpan(a) | ToSpan(a) | StateProbe(a) | Filter(a, _) | TryMap(a, _) | Validate(a, _)
         | Labelled(a, ..) | Memo(a) | Ignored(a) | To(a, _) | Lazy(a) | Rec(a) | Slice(a) | Padded(a) => vec![a],
@@ -645,7 +669,7 @@ pub fn contains(g: &G, f: &dyn Fn(&G) -> bool) -> bool {
 /// Does the grammar need ValueInput (any/one_of/none_of/select!/nested_delimiters)?
 pub fn needs_value_input(g: &G) -> bool {
     contains(g, &|x| {
-        matches!(x, G::Any | G::CtxPair(_) | G::OneOf(_) | G::NoneOf(_) | G::Select(_) | G::Not(_) | G::Lazy(_) | G::Slice(_) | G::AnyRef | G::SelectRef(_) | G::SpanFrom | G::SliceFrom | G::Text(_) | G::Padded(_)) || matches!(x, G::Recover(_, Strat::Nested(..)))
+        matches!(x, G::Any | G::CtxPair(_) | G::OneOf(_) | G::NoneOf(_) | G::Select(_) | G::Not(_) | G::Lazy(_) | G::Slice(_) | G::AnyRef | G::SelectRef(_) | G::SpanFrom | G::SliceFrom | G::Text(_) | G::Padded(_) | G::Nested(..)) || matches!(x, G::Recover(_, Strat::Nested(..)))
     })
 }
 
@@ -655,6 +679,7 @@ pub fn well_scoped(g: &G, in_rec: bool) -> bool {
         G::RecRef => in_rec,
         G::Rec(b) => !in_rec && well_scoped(b, true),
         G::Lazy(_) if in_rec => false,
+        G::Nested(a, _) => well_scoped(a, false),
         _ => children(g).into_iter().all(|c| well_scoped(c, in_rec)),
     }
 }
@@ -741,6 +766,7 @@ pub fn sexpr(g: &G) -> String {
         FoldWith(false, a, b) => format!("(foldr_with {} {})", sexpr(a), sexpr(b)),
         Group3(a, b, c) => format!("(group {} {} {})", sexpr(a), sexpr(b), sexpr(c)),
         Choice3(a, b, c) => format!("(choice3 {} {} {})", sexpr(a), sexpr(b), sexpr(c)),
+        Nested(a, n) => format!("(nested_in<{}> {})", n, sexpr(a)),
     }
 }
 
@@ -887,6 +913,14 @@ pub fn sample(g: &G, rng: &mut Rng, nsym: u8, out: &mut Vec<u8>, fuel: &mut i64,
             }
         }
         Un(_, _, a) => sample(a, rng, nsym, out, fuel, rec),
+        Nested(a, n) => {
+            let start = out.len();
+            sample(a, rng, nsym, out, fuel, None);
+            out.truncate(start + *n as usize);
+            while out.len() < start + *n as usize {
+                out.push(rng.below(nsym as u64) as u8);
+            }
+        }
         Group3(a, b, c) => {
             sample(a, rng, nsym, out, fuel, rec);
             sample(b, rng, nsym, out, fuel, rec);
@@ -1001,11 +1035,12 @@ pub struct Need {
     pub exact: bool,
     pub strin: bool,
     pub regex: bool,
+    pub nest: bool,
 }
 
 impl Need {
     pub fn satisfied_by(&self, have: &Need) -> bool {
-        (!self.slice || have.slice) && (!self.borrow || have.borrow) && (!self.exact || have.exact) && (!self.strin || have.strin) && (!self.regex || have.regex)
+        (!self.slice || have.slice) && (!self.borrow || have.borrow) && (!self.exact || have.exact) && (!self.strin || have.strin) && (!self.regex || have.regex) && (!self.nest || have.nest)
     }
 }
 
@@ -1016,6 +1051,7 @@ pub fn needs_caps(g: &G) -> Need {
         exact: contains(g, &|x| matches!(x, G::SpanFrom)),
         strin: contains(g, &|x| matches!(x, G::Text(_))),
         regex: contains(g, &|x| matches!(x, G::Text(k) if *k >= 9)),
+        nest: contains(g, &|x| matches!(x, G::Nested(..))),
     }
 }
 
